@@ -554,6 +554,9 @@ enum Then {
     /// do not read the client's line, send the chunks and close with the line still unread: the client's
     /// read fails with ECONNRESET (a read error event)
     Reset,
+    /// send the chunks, then shut down the READING side and keep the socket open for a while: the client's next WRITE
+    /// fails (EPIPE) while nothing it could read tells it so
+    ShutRead,
 }
 
 #[derive(Clone, Debug)]
@@ -592,6 +595,12 @@ fn events(reps: &[Rep]) -> String {
             }
             Then::Reset => {
                 ev.push("x".into());
+                ended = true;
+                break;
+            }
+            Then::ShutRead => {
+                // the client's next write fails (see `write_failures`); what the socket would deliver afterwards is never read
+                ev.push("e".into());
                 ended = true;
                 break;
             }
@@ -673,12 +682,21 @@ fn serve(mut s: UnixStream, reps: Vec<Rep>, expect_nul: bool, tail: bool, post_b
                 }
             }
         }
+        if r.then == Then::ShutRead {
+            // the reading side goes down BEFORE the reply that makes the client write again is sent
+            let _ = s.shutdown(std::net::Shutdown::Read);
+        }
         for c in &r.chunks {
             if s.write_all(c).is_err() {
                 return trace;
             }
             let _ = s.flush();
             pause();
+        }
+        if r.then == Then::ShutRead {
+            std::thread::sleep(Duration::from_millis(60));
+            drop(s);
+            return trace;
         }
         if r.then != Then::Continue {
             drop(s);
@@ -727,6 +745,61 @@ struct Hs<'a> {
     uid: u32,
     hangs: u32,
     post: Vec<u8>,
+    /// ONE client thread performs all connects, one after the other (state the library keeps per thread or per process
+    /// between connections stays in play); it is replaced only after a connect that never returned
+    client: Option<ClientWorker>,
+}
+
+struct ClientWorker {
+    jobs: mpsc::Sender<(Vec<u8>, bool)>,
+    results: mpsc::Receiver<(String, Option<String>, Duration)>,
+}
+
+fn spawn_client_worker() -> ClientWorker {
+    let (jtx, jrx) = mpsc::channel::<(Vec<u8>, bool)>();
+    let (rtx, rrx) = mpsc::channel::<(String, Option<String>, Duration)>();
+    std::thread::spawn(move || {
+        while let Ok((name2, with_fd)) = jrx.recv() {
+            let t0 = Instant::now();
+            let uaddr = nix::sys::socket::UnixAddr::new_abstract(&name2).unwrap();
+            let r = guard(|| DuplexConn::connect_to_bus(uaddr, with_fd));
+            let el = t0.elapsed();
+            let (res, msg) = match r {
+                Err(p) => (format!("panic:{}", p), None),
+                Ok(Ok(mut conn)) => {
+                    // nothing of what follows BEGIN may have been consumed by the handshake
+                    let m = guard(|| conn.recv.get_next_message(Timeout::Duration(Duration::from_millis(1500))));
+                    let verdict = match m {
+                        Ok(Ok(m)) => {
+                            let mut p = m.body.parser();
+                            let a = p.get::<u64>().ok();
+                            let b = p.get::<&str>().ok().map(|s| s.to_string());
+                            if m.dynheader.member.as_deref() == Some("AfterBegin")
+                                && m.dynheader.serial.map(|s| s.get()) == Some(77)
+                                && a == Some(0x1122334455667788)
+                                && b.as_deref() == Some("nothing was consumed")
+                            {
+                                "intact".to_string()
+                            } else {
+                                format!("damaged: member {:?} params {:?} {:?}", m.dynheader.member, a, b)
+                            }
+                        }
+                        Ok(Err(e)) => format!("not received: {:?}", e),
+                        Err(p) => format!("panic: {}", p),
+                    };
+                    ("ok".to_string(), Some(verdict))
+                }
+                Ok(Err(ConnError::AuthFailed)) => ("authfailed".into(), None),
+                Ok(Err(ConnError::UnixFdNegotiationFailed)) => ("fdfailed".into(), None),
+                Ok(Err(ConnError::IoError(e))) => (io_kind(&e).into(), None),
+                Ok(Err(_)) => ("err:other".into(), None),
+            };
+            if rtx.send((res, msg, el)).is_err() {
+                break;
+            }
+        }
+    });
+    ClientWorker { jobs: jtx, results: rrx }
 }
 
 impl<'a> Hs<'a> {
@@ -810,7 +883,12 @@ impl<'a> Hs<'a> {
         }
         // the server plays exactly the steps this configuration has (then waits for BEGIN)
         let reps: Vec<Rep> = reps.into_iter().take(if with_fd { 2 } else { 1 }).collect();
-        let req = format!("c17.conn {} {} - {}", self.uid, if with_fd { 1 } else { 0 }, events(&reps));
+        // the write attempts are numbered NUL = 0, AUTH = 1, then NEGOTIATE_UNIX_FD / BEGIN: the one after a ShutRead step fails
+        let wf = match reps.iter().position(|r| r.then == Then::ShutRead) {
+            Some(i) => (i + 2).to_string(),
+            None => "-".to_string(),
+        };
+        let req = format!("c17.conn {} {} {} {}", self.uid, if with_fd { 1 } else { 0 }, wf, events(&reps));
         let name = peer::fresh_abstract_name();
         let addr = SocketAddr::from_abstract_name(&name).unwrap();
         let listener = UnixListener::bind_addr(&addr).unwrap();
@@ -820,47 +898,16 @@ impl<'a> Hs<'a> {
             Some(s) => serve(s, reps2, true, true, post),
             None => Vec::new(),
         });
-        let (tx, rx) = mpsc::channel::<(String, Option<String>, Duration)>();
-        let name2 = name.clone();
-        std::thread::spawn(move || {
-            let t0 = Instant::now();
-            let uaddr = nix::sys::socket::UnixAddr::new_abstract(&name2).unwrap();
-            let r = guard(|| DuplexConn::connect_to_bus(uaddr, with_fd));
-            let el = t0.elapsed();
-            let (res, msg) = match r {
-                Err(p) => (format!("panic:{}", p), None),
-                Ok(Ok(mut conn)) => {
-                    // nothing of what follows BEGIN may have been consumed by the handshake
-                    let m = guard(|| conn.recv.get_next_message(Timeout::Duration(Duration::from_millis(1500))));
-                    let verdict = match m {
-                        Ok(Ok(m)) => {
-                            let mut p = m.body.parser();
-                            let a = p.get::<u64>().ok();
-                            let b = p.get::<&str>().ok().map(|s| s.to_string());
-                            if m.dynheader.member.as_deref() == Some("AfterBegin")
-                                && m.dynheader.serial.map(|s| s.get()) == Some(77)
-                                && a == Some(0x1122334455667788)
-                                && b.as_deref() == Some("nothing was consumed")
-                            {
-                                "intact".to_string()
-                            } else {
-                                format!("damaged: member {:?} params {:?} {:?}", m.dynheader.member, a, b)
-                            }
-                        }
-                        Ok(Err(e)) => format!("not received: {:?}", e),
-                        Err(p) => format!("panic: {}", p),
-                    };
-                    ("ok".to_string(), Some(verdict))
-                }
-                Ok(Err(ConnError::AuthFailed)) => ("authfailed".into(), None),
-                Ok(Err(ConnError::UnixFdNegotiationFailed)) => ("fdfailed".into(), None),
-                Ok(Err(ConnError::IoError(e))) => (io_kind(&e).into(), None),
-                Ok(Err(_)) => ("err:other".into(), None),
-            };
-            let _ = tx.send((res, msg, el));
-        });
+        if self.client.is_none() {
+            self.client = Some(spawn_client_worker());
+        }
+        let _ = self.client.as_ref().unwrap().jobs.send((name.clone(), with_fd));
         let pieces: u64 = reps.iter().map(|r| r.chunks.len() as u64).sum();
-        let got = rx.recv_timeout(Duration::from_millis(2500) + Duration::from_micros(pieces * GAP_US.load(std::sync::atomic::Ordering::SeqCst)));
+        let got = self.client.as_ref().unwrap().results.recv_timeout(Duration::from_millis(2500) + Duration::from_micros(pieces * GAP_US.load(std::sync::atomic::Ordering::SeqCst)));
+        if got.is_err() {
+            // the connect never returned: that thread is lost; the next connect gets a new one
+            self.client = None;
+        }
         let trace = srv.join().unwrap_or_default();
         let hexuid: String = self.uid.to_string().bytes().map(|b| format!("{:02x}", b)).collect();
         let mut steps: Vec<Vec<u8>> = vec![format!("AUTH EXTERNAL {}\r\n", hexuid).into_bytes()];
@@ -1166,7 +1213,7 @@ fn all_compositions(b: &[u8]) -> Vec<Vec<Vec<u8>>> {
 
 fn handshake_phase(out: &mut Out, rng: &mut Prng, cfg: &Cfg) {
     let uid = unsafe { libc::getuid() };
-    let mut hs = Hs { out, uid, hangs: 0, post: post_begin_message() };
+    let mut hs = Hs { out, uid, hangs: 0, post: post_begin_message(), client: None };
     let c1 = classes1();
     let c2 = classes2();
     let ok = || rep(vec![line(b"OK 1234deadbeef")]);
@@ -1193,6 +1240,16 @@ fn handshake_phase(out: &mut Out, rng: &mut Prng, cfg: &Cfg) {
             hs.connect(vec![rep(vec![l[..2].to_vec(), l[2..9].to_vec(), l[9..].to_vec()]), agree()], fd, "conn_slow_trickle", true);
         }
         GAP_US.store(700, std::sync::atomic::Ordering::SeqCst);
+    }
+    // 2c. the client's WRITE fails: the server accepts a step, then shuts down its reading side (the next line the client
+    //     writes gets EPIPE); the connects that follow ON THE SAME CLIENT THREAD must start from a clean slate
+    for fd in [false, true] {
+        hs.connect(vec![Rep { chunks: vec![line(b"OK 1234deadbeef")], then: Then::ShutRead }], fd, "conn_write_fails_after_ok", false);
+        hs.connect(vec![ok(), agree()], fd, "conn_after_failed_write", true);
+        if fd {
+            hs.connect(vec![ok(), Rep { chunks: vec![line(b"AGREE_UNIX_FD")], then: Then::ShutRead }], true, "conn_write_fails_after_agree", false);
+            hs.connect(vec![ok(), agree()], true, "conn_after_failed_write", true);
+        }
     }
     // 3. close after k bytes, for every k, at each step (k = whole reply is racy for connect_to_bus: the
     //    client's next write may or may not see the close; it is done deterministically on the step functions)
